@@ -566,6 +566,25 @@ def control_rules(ck, c, rc, rtab):
           "the interpreter loop narrows an operand only in i32.wrap_i64 (%d cast)" % len(narrow) if ok_n else
           "operand values are narrowed by %s outside i32.wrap_i64: bits of an operand are dropped before it is used" % sorted(set((ts, td) for (ts, td, bi) in narrow if (ts, td) != ("i64", "i32") or not (wrap_arm and bi in wrap_arm[0]))),
           rc.loc([bi for (ts, td, bi) in narrow if (ts, td) != ("i64", "i32")][0]) if any((ts, td) != ("i64", "i32") for (ts, td, bi) in narrow) else rc.loc())
+    # ... and the only place where an i32 operand is widened WITH its sign is i64.extend_i32_s: everywhere else (page counts,
+    # addresses, selectors, shift counts) the operand is an unsigned 32-bit quantity and goes through u32 first
+    sext = []
+    for bi in sorted(rc.reachable()):
+        for st in rc.stmts(bi):
+            rv = st.get("rv", {})
+            if rv.get("k") == "cast" and rv.get("ck") == "IntToInt":
+                src = op_place(rv["a"])
+                ts = rc.locals[src[0]] if src and not src[1] else None
+                td = rv.get("ty")
+                if ts == "i32" and td in WID and WID[td] == 64 and ("field", "short") in rc.origins(rv["a"], deep=False):
+                    sext.append((td, bi))
+    ext_arm = arm("I64ExtendI32S")
+    ok_s = len(sext) >= 1 and all(ext_arm and bi in ext_arm[0] for (td, bi) in sext)
+    nn_ += 1
+    ck.ob("TAB", "interpreter", "operands-sign-extended-only-by-extend_s", ok_s,
+          "an i32 operand is widened with its sign only in i64.extend_i32_s (%d cast)" % len(sext) if ok_s else
+          "an i32 operand is cast directly to a 64-bit type (sign extension) outside i64.extend_i32_s: negative operands become huge 64-bit values (or wrap a sum)",
+          rc.loc([bi for (td, bi) in sext if not (ext_arm and bi in ext_arm[0])][0]) if not ok_s and sext else rc.loc())
     for n, stride in (("BrTable", 4), ("BrTableCarry", 8)):
         a = arm(n)
         if not a:
